@@ -829,6 +829,15 @@ where
         "rf_min" => RF::min(a[0].clone(), a[1].clone()).wr(o),
         "rf_clamp" => RF::clamp(a[0].clone(), a[1].clone(), a[2].clone()).wr(o),
         "rf_is_sign_positive" => wb(RF::is_sign_positive(&a[0]), o),
+        // PartialOrd (the field-compatible types): the four operators and the three-way comparison
+        "po_lt" => wb(a[0] < a[1], o),
+        "po_le" => wb(a[0] <= a[1], o),
+        "po_gt" => wb(a[0] > a[1], o),
+        "po_ge" => wb(a[0] >= a[1], o),
+        "po_cmp_less" => wb(a[0].partial_cmp(&a[1]) == Some(std::cmp::Ordering::Less), o),
+        "po_cmp_equal" => wb(a[0].partial_cmp(&a[1]) == Some(std::cmp::Ordering::Equal), o),
+        "po_cmp_greater" => wb(a[0].partial_cmp(&a[1]) == Some(std::cmp::Ordering::Greater), o),
+        "po_cmp_none" => wb(a[0].partial_cmp(&a[1]).is_none(), o),
         "rf_is_sign_negative" => wb(RF::is_sign_negative(&a[0]), o),
         // single-lane SIMD view
         "simd_splat_extract" => { use nalgebra::SimdValue; <D as SimdValue>::splat(a[0].clone()).extract(0).wr(o) }
